@@ -635,3 +635,266 @@ Proof.
       * exists x0. split; [reflexivity|]. replace r with (4096 * sb + 64 * block) by (unfold rr, block, off, sb in *; lia).
         exact Hx0.
 Qed.
+
+(* ================================================================ (6) the wrappers *)
+
+(* ---- the builder and the iterator read only the data and the count of a bitvector ---- *)
+
+Definition bv_same (b b' : bitvec) : Prop := bv_data b = bv_data b' /\ bv_ones b = bv_ones b'.
+
+Lemma bind_ext {A C} (e : res A) (f g : A -> res C) : (forall a, f a = g a) -> bind e f = bind e g.
+Proof. intros H. destruct e; cbn [bind]; auto. Qed.
+
+Lemma same_len b b' : bv_same b b' -> bv_len b = bv_len b'.
+Proof. intros [Hd _]. unfold bv_len. rewrite Hd. reflexivity. Qed.
+
+Lemma same_count t b b' : bv_same b b' -> t_count_ones t b = t_count_ones t b'.
+Proof.
+  intros H. pose proof (same_len b b' H) as Hl. destruct H as [Hd Ho].
+  destruct t; cbn [t_count_ones]; unfold bv_count_ones, bv_count_zeros; rewrite Ho, ?Hl; reflexivity.
+Qed.
+
+Lemma same_word t b b' k : bv_same b b' -> t_word_unchecked t b k = t_word_unchecked t b' k.
+Proof.
+  intros H. pose proof (same_len b b' H) as Hl. destruct H as [Hd Ho].
+  destruct t; cbn [t_word_unchecked]; rewrite Hd, ?Hl; reflexivity.
+Qed.
+
+Lemma same_fuel b b' : bv_same b b' -> scan_fuel b = scan_fuel b'.
+Proof. intros [Hd _]. unfold scan_fuel. rewrite Hd. reflexivity. Qed.
+
+Lemma same_scan_fwd t b b' : bv_same b b' -> forall fuel i w, scan_fwd t b fuel i w = scan_fwd t b' fuel i w.
+Proof.
+  intros H. induction fuel as [|fuel IH]; intros i w; cbn [scan_fwd]; [reflexivity|].
+  destruct (w =? 0); [|reflexivity]. rewrite (same_word t b b' _ H). apply bind_ext. intros a. apply IH.
+Qed.
+
+Lemma same_scan_rank t b b' : bv_same b b' -> forall fuel i w r, scan_rank t b fuel i w r = scan_rank t b' fuel i w r.
+Proof.
+  intros H. induction fuel as [|fuel IH]; intros i w r; cbn [scan_rank]; [reflexivity|].
+  destruct (popcount w <=? r); [|reflexivity]. rewrite (same_word t b b' _ H). apply bind_ext. intros a. apply IH.
+Qed.
+
+Lemma same_next t b b' it : bv_same b b' -> oi_next_f t b it = oi_next_f t b' it.
+Proof.
+  intros H. unfold oi_next_f. destruct (_ <=? _); [reflexivity|].
+  destruct (split_offset (snd (oi_next it))) as [index offset].
+  rewrite (same_word t b b' _ H). apply bind_ext. intros w0. apply bind_ext. intros ls.
+  rewrite (same_fuel b b' H), (same_scan_fwd t b b' H). reflexivity.
+Qed.
+
+Lemma same_nth sp m t b b' it n : bv_same b b' -> oi_nth sp m t b it n = oi_nth sp m t b' it n.
+Proof.
+  intros H. unfold oi_nth. apply bind_ext. intros rem. destruct (_ <=? _); [reflexivity|].
+  destruct (split_offset (snd (oi_next it))) as [index offset].
+  rewrite (same_word t b b' _ H). apply bind_ext. intros w0. apply bind_ext. intros ls.
+  rewrite (same_fuel b b' H), (same_scan_rank t b b' H). reflexivity.
+Qed.
+
+Lemma same_fill_long t b b' : bv_same b b' -> forall n s1 long it v,
+  fill_long t b n s1 long it v = fill_long t b' n s1 long it v.
+Proof.
+  intros H. induction n as [|n IH]; intros s1 long it v; cbn [fill_long]; [reflexivity|].
+  apply bind_ext. intros x. apply bind_ext. intros long'. rewrite (same_next t b b' it H).
+  apply bind_ext. intros [it' v']. apply IH.
+Qed.
+
+Lemma same_fill_short sp m t b b' : bv_same b b' -> forall n s1 short it v,
+  fill_short sp m t b n s1 short it v = fill_short sp m t b' n s1 short it v.
+Proof.
+  intros H. induction n as [|n IH]; intros s1 short it v; cbn [fill_short]; [reflexivity|].
+  apply bind_ext. intros x. apply bind_ext. intros short'. rewrite (same_nth sp m t b b' it _ H).
+  apply bind_ext. intros [it' v']. apply IH.
+Qed.
+
+Lemma same_ss_loop sp m t b b' : bv_same b b' -> forall fuel l4 st,
+  ss_loop sp m t b fuel l4 st = ss_loop sp m t b' fuel l4 st.
+Proof.
+  intros H. induction fuel as [|fuel IH]; intros l4 st; cbn [ss_loop]; [reflexivity|].
+  destruct (sb_sample st) as [start|]; [|reflexivity].
+  rewrite (same_nth sp m t b b' _ _ H). apply bind_ext. intros [sit' ns].
+  rewrite (same_count t b b' H), (same_len b b' H). apply bind_ext. intros s1.
+  destruct (_ <=? _).
+  - apply bind_ext. intros s2. rewrite (same_fill_long t b b' H). apply bind_ext. intros [[l' i'] v']. apply IH.
+  - apply bind_ext. intros s2. rewrite (same_fill_short sp m t b b' H). apply bind_ext. intros [[l' i'] v']. apply IH.
+Qed.
+
+Lemma same_select_new sp m t b b' : bv_same b b' -> select_new sp m t b = select_new sp m t b'.
+Proof.
+  intros H. unfold select_new, oi_start.
+  rewrite (same_len b b' H), (same_count t b b' H), (same_next t b b' _ H).
+  apply bind_ext. intros [sit sample]. apply bind_ext. intros [it value].
+  rewrite (same_ss_loop sp m t b b' H). reflexivity.
+Qed.
+
+(* ---- select_ok: the stored support is what the builder produces ---- *)
+
+Definition select_ok (sp : selpath) (m : mode) (t : transf) (b : bitvec) (B : list bool) : Prop :=
+  exists s, t_support t b = Some s /\ select_new sp m t b = Ok s.
+
+Lemma select_ok_valid sp m t b B : bv_repr b B -> select_ok sp m t b B ->
+  exists s, t_support t b = Some s /\ ss_valid t B s.
+Proof.
+  intros Hrep (s & Hs & Hnew). destruct (select_new_spec sp m t b B Hrep) as (s' & E & Hv & _).
+  assert (s' = s) by congruence. subst s'. exists s. auto.
+Qed.
+
+(* select_ok survives any change of the other fields *)
+Lemma select_ok_same sp m t b b' B : bv_same b b' -> t_support t b' = t_support t b ->
+  select_ok sp m t b B -> select_ok sp m t b' B.
+Proof.
+  intros H Hsup (s & Hs & Hnew). exists s. split; [congruence|]. rewrite <- (same_select_new sp m t b b' H). exact Hnew.
+Qed.
+
+Lemma bv_repr_same b b' B : bv_same b b' -> bv_repr b B -> bv_repr b' B.
+Proof. intros [Hd Ho] (H1 & H2 & H3). unfold bv_repr, bv_len in *. rewrite <- Hd, <- Ho. auto. Qed.
+
+(* enable_select / enable_select_zero: builds the support when absent, touches nothing else *)
+Theorem bv_enable_select_t_spec sp m t b B : bv_repr b B ->
+  exists b', bv_enable_select_t sp m t b = Ok b' /\ bv_repr b' B /\ bv_same b b' /\
+    bv_rank b' = bv_rank b /\
+    match t with Identity => bv_select_zero b' = bv_select_zero b | Complement => bv_select b' = bv_select b end /\
+    (t_support t b = None -> select_ok sp m t b' B) /\
+    (forall s0, t_support t b = Some s0 -> b' = b).
+Proof.
+  intros Hrep. unfold bv_enable_select_t. destruct (t_support t b) as [s0|] eqn:Es.
+  - exists b. split; [reflexivity|]. split; [exact Hrep|]. split; [split; reflexivity|]. split; [reflexivity|].
+    split; [destruct t; reflexivity|]. split; [discriminate|reflexivity].
+  - destruct (select_new_spec sp m t b B Hrep) as (s & E & _). rewrite E. cbn [bind].
+    eexists. split; [reflexivity|].
+    assert (Hsame : bv_same b (match t with
+                               | Identity => mkbv (bv_ones b) (bv_data b) (bv_rank b) (Some s) (bv_select_zero b)
+                               | Complement => mkbv (bv_ones b) (bv_data b) (bv_rank b) (bv_select b) (Some s) end))
+      by (destruct t; split; reflexivity).
+    split; [exact (bv_repr_same _ _ B Hsame Hrep)|]. split; [exact Hsame|].
+    split; [destruct t; reflexivity|]. split; [destruct t; reflexivity|]. split; [|discriminate].
+    intros _. exists s. split; [destruct t; reflexivity|]. rewrite <- (same_select_new sp m t _ _ Hsame). exact E.
+Qed.
+
+(* select / select_zero: for EVERY rank, the position of that one, None from the count on.
+   The support may have been built on either select path and in either mode (sp0, m0). *)
+Theorem bv_select_t_spec sp0 m0 sp m t b B r : bv_repr b B ->
+  (r < count (t_bits t B) -> select_ok sp0 m0 t b B) ->
+  bv_select_t sp m t b r = Ok (nth_opt (ones (t_bits t B)) r).
+Proof.
+  intros Hrep Hok. unfold bv_select_t. rewrite (t_count_ones_spec t b B Hrep).
+  destruct (N.leb_spec (count (t_bits t B)) r) as [Hge|Hlt].
+  - rewrite select_none by exact Hge. reflexivity.
+  - destruct (select_ok_valid sp0 m0 t b B Hrep (Hok Hlt)) as (s & Hs & Hv). rewrite Hs. cbn [opt_unwrap bind].
+    destruct (select_unchecked_spec sp m t s b B r Hrep Hv Hlt) as (p & E & Hp). rewrite E, Hp. reflexivity.
+Qed.
+
+(* select_iter / select_zero_iter: an iterator over the ranked positions from rank r on *)
+Theorem bv_select_iter_t_spec sp0 m0 sp m t b B r : bv_repr b B ->
+  (r < count (t_bits t B) -> select_ok sp0 m0 t b B) ->
+  exists it, bv_select_iter_t sp m t b r = Ok it /\ oi_inv t B it /\ oi_mid t B it = skipN (oi_R t B) r.
+Proof.
+  intros Hrep Hok. unfold bv_select_iter_t. rewrite (t_count_ones_spec t b B Hrep).
+  destruct (N.leb_spec (count (t_bits t B)) r) as [Hge|Hlt].
+  - destruct (oi_empty_inv t b B Hrep) as [Hi Hm]. exists (oi_empty t b). split; [reflexivity|]. split; [exact Hi|].
+    rewrite Hm, skipN_ge by (rewrite lenN_R; exact Hge). reflexivity.
+  - destruct (select_ok_valid sp0 m0 t b B Hrep (Hok Hlt)) as (s & Hs & Hv). rewrite Hs. cbn [opt_unwrap bind].
+    destruct (select_unchecked_spec sp m t s b B r Hrep Hv Hlt) as (p & E & Hp). rewrite E. cbn [bind].
+    rewrite <- (t_count_ones_spec t b B Hrep).
+    destruct (oi_at_inv t b B r p Hrep Hp) as [Hi Hm]. eexists. split; [reflexivity|]. split; [exact Hi|exact Hm].
+Qed.
+
+(* ================================================================ (7) predecessor / successor *)
+
+Lemma drop_below_from B : forall pos i v,
+  drop_below (index_from (ones_from B pos) i) v = skipN (index_from (ones_from B pos) i) (rank1 B (v - pos)).
+Proof.
+  induction B as [|b t IH]; intros pos i v; cbn [ones_from]; [reflexivity|].
+  destruct b.
+  - cbn [index_from drop_below rank1 skipN b2n]. destruct (N.ltb_spec pos v) as [H|H].
+    + replace (v - pos =? 0) with false by lia. rewrite IH.
+      replace (1 + rank1 t (v - pos - 1) =? 0) with false by lia.
+      f_equal. replace (v - (pos + 1)) with (v - pos - 1) by lia. lia.
+    + replace (v - pos =? 0) with true by lia. reflexivity.
+  - rewrite IH. cbn [rank1 b2n]. destruct (N.eqb_spec (v - pos) 0) as [E|E].
+    + replace (v - (pos + 1)) with 0 by lia. rewrite rank1_0. reflexivity.
+    + f_equal. replace (v - (pos + 1)) with (v - pos - 1) by lia. lia.
+Qed.
+
+Lemma succ_suffix_skip B v : succ_suffix B v = skipN (ranked_ones B) (rank1 B v).
+Proof. unfold succ_suffix, ranked_ones, ones. rewrite drop_below_from, N.sub_0_r. reflexivity. Qed.
+
+Lemma pred_aux_from B : forall pos i v best,
+  pred_suffix_aux (index_from (ones_from B pos) i) v best =
+  if rank1 B (v + 1 - pos) =? 0 then best
+  else skipN (index_from (ones_from B pos) i) (rank1 B (v + 1 - pos) - 1).
+Proof.
+  induction B as [|b t IH]; intros pos i v best; cbn [ones_from]; [reflexivity|].
+  destruct b.
+  - cbn [index_from pred_suffix_aux rank1 b2n]. destruct (N.leb_spec pos v) as [H|H].
+    + replace (v + 1 - pos =? 0) with false by lia. rewrite IH.
+      replace (v + 1 - (pos + 1)) with (v + 1 - pos - 1) by lia.
+      replace (1 + rank1 t (v + 1 - pos - 1) =? 0) with false by lia.
+      replace (1 + rank1 t (v + 1 - pos - 1) - 1) with (rank1 t (v + 1 - pos - 1)) by lia.
+      cbn [skipN]. destruct (rank1 t (v + 1 - pos - 1) =? 0); reflexivity.
+    + replace (v + 1 - pos =? 0) with true by lia. reflexivity.
+  - rewrite IH. cbn [rank1 b2n]. destruct (N.eqb_spec (v + 1 - pos) 0) as [E|E].
+    + replace (v + 1 - (pos + 1)) with 0 by lia. rewrite rank1_0. reflexivity.
+    + replace (v + 1 - (pos + 1)) with (v + 1 - pos - 1) by lia. rewrite N.add_0_l. reflexivity.
+Qed.
+
+Lemma pred_suffix_skip B v : pred_suffix B v =
+  if rank1 B (v + 1) =? 0 then [] else skipN (ranked_ones B) (rank1 B (v + 1) - 1).
+Proof. unfold pred_suffix, ranked_ones, ones. rewrite pred_aux_from, N.sub_0_r. reflexivity. Qed.
+
+Lemma rank1_sat_add1 B v : lenB B < 2 ^ 64 -> v < 2 ^ 64 -> rank1 B (sat_add1 v) = rank1 B (v + 1) /\ sat_add1 v < 2 ^ 64.
+Proof.
+  intros HL Hv. unfold sat_add1. destruct (N.ltb_spec (v + 1) (2 ^ 64)) as [H|H]; [split; [reflexivity|exact H]|].
+  split; [|lia]. rewrite !rank1_all by lia. reflexivity.
+Qed.
+
+Lemma ranked_ones_R B : ranked_ones B = oi_R Identity B.
+Proof. reflexivity. Qed.
+
+(* successor(v), for every v: an iterator whose remaining items are the ranked ones at positions >= v *)
+Theorem bv_successor_spec sp0 m0 sp m b B v : bv_repr b B -> select_ok sp0 m0 Identity b B ->
+  (forall i, i < 2 ^ 64 -> bv_rank_q b i = Ok (rank1 B i)) -> v < 2 ^ 64 ->
+  exists it, bv_successor sp m b v = Ok it /\ oi_inv Identity B it /\ oi_mid Identity B it = succ_suffix B v.
+Proof.
+  intros Hrep Hok Hrank Hv. unfold bv_successor. rewrite (Hrank v Hv). cbn [bind].
+  destruct (repr_facts b B Hrep) as (_ & _ & _ & _ & _ & Ho). unfold bv_count_ones. rewrite Ho.
+  rewrite succ_suffix_skip, ranked_ones_R.
+  destruct (N.leb_spec (count B) (rank1 B v)) as [Hge|Hlt].
+  - destruct (oi_empty_inv Identity b B Hrep) as [Hi Hm]. exists (oi_empty Identity b). split; [reflexivity|].
+    split; [exact Hi|]. rewrite Hm, skipN_ge by (rewrite lenN_R; exact Hge). reflexivity.
+  - apply (bv_select_iter_t_spec sp0 m0 sp m Identity b B); [exact Hrep|intros _; exact Hok].
+Qed.
+
+(* predecessor(v), for every v including 2^64-1: the remaining items start at the last one <= v *)
+Theorem bv_predecessor_spec sp0 m0 sp m b B v : bv_repr b B -> select_ok sp0 m0 Identity b B ->
+  (forall i, i < 2 ^ 64 -> bv_rank_q b i = Ok (rank1 B i)) -> v < 2 ^ 64 ->
+  exists it, bv_predecessor sp m b v = Ok it /\ oi_inv Identity B it /\ oi_mid Identity B it = pred_suffix B v.
+Proof.
+  intros Hrep Hok Hrank Hv. unfold bv_predecessor.
+  destruct (repr_facts b B Hrep) as (HL & HLlt & _).
+  destruct (rank1_sat_add1 B v ltac:(lia) Hv) as [Hs Hslt]. rewrite (Hrank _ Hslt), Hs. cbn [bind].
+  rewrite pred_suffix_skip, ranked_ones_R.
+  destruct (N.eqb_spec (rank1 B (v + 1)) 0) as [Hz|Hnz].
+  - destruct (oi_empty_inv Identity b B Hrep) as [Hi Hm]. exists (oi_empty Identity b). split; [reflexivity|].
+    split; [exact Hi|exact Hm].
+  - apply (bv_select_iter_t_spec sp0 m0 sp m Identity b B); [exact Hrep|intros _; exact Hok].
+Qed.
+
+(* the first item the returned iterators yield *)
+Corollary bv_successor_first sp0 m0 sp m b B v : bv_repr b B -> select_ok sp0 m0 Identity b B ->
+  (forall i, i < 2 ^ 64 -> bv_rank_q b i = Ok (rank1 B i)) -> v < 2 ^ 64 ->
+  exists it it', bv_successor sp m b v = Ok it /\ oi_next_f Identity b it = Ok (it', succ1 B v).
+Proof.
+  intros Hrep Hok Hrank Hv. destruct (bv_successor_spec sp0 m0 sp m b B v Hrep Hok Hrank Hv) as (it & E & Hi & Hm).
+  destruct (oi_next_spec Identity b B it Hrep Hi) as (it' & E' & _). exists it, it'. split; [exact E|].
+  rewrite E', Hm. reflexivity.
+Qed.
+
+Corollary bv_predecessor_first sp0 m0 sp m b B v : bv_repr b B -> select_ok sp0 m0 Identity b B ->
+  (forall i, i < 2 ^ 64 -> bv_rank_q b i = Ok (rank1 B i)) -> v < 2 ^ 64 ->
+  exists it it', bv_predecessor sp m b v = Ok it /\ oi_next_f Identity b it = Ok (it', pred1 B v).
+Proof.
+  intros Hrep Hok Hrank Hv. destruct (bv_predecessor_spec sp0 m0 sp m b B v Hrep Hok Hrank Hv) as (it & E & Hi & Hm).
+  destruct (oi_next_spec Identity b B it Hrep Hi) as (it' & E' & _). exists it, it'. split; [exact E|].
+  rewrite E', Hm. reflexivity.
+Qed.
